@@ -705,10 +705,10 @@ class STIR(Command):
             self.step = p[1]
 
     def __repr__(self):
-        return "STIR {} {}".format(self.sres if self.sres else '', self.step)
+        return "STIR {} {}".format(self.sres if self.sres is not None else '', self.step)
 
     def __str__(self):
-        return "STIR {} {}".format(self.sres if self.sres else '', self.step)
+        return "STIR {} {}".format(self.sres if self.sres is not None else '', self.step)
 
 
 class TWST(Command):
